@@ -49,6 +49,7 @@ structure St where
   b : DomainSet.Builder := DomainSet.Builder.emptyText
   ms : Option (List DomainSet.Matcher) := none
   reBad : List (List UInt8) := []
+  reTrue : List (List UInt8 × List UInt8) := []
 
 def domainKind : DomainSet.DomainB → String
   | .linear _ => "linear" | .bsearch _ => "bsearch" | .map _ => "map"
@@ -66,12 +67,12 @@ def matcherKind : DomainSet.Matcher → String
 def errName : DomainSet.TextErr → String
   | .emptySet => "empty" | .badHint => "badhint" | .invalidLine => "invalid"
 
-/-- regexp table of one probe: `pat:0|1` pairs -/
-def parseReTab (s : String) : Option (List (List UInt8 × Bool)) :=
-  if s == "-" then some [] else
+/-- the (pattern, domain) pairs on which the real regexp library answered true: `pat:dom` pairs -/
+def parseReTrue (s : String) : Option (List (List UInt8 × List UInt8)) :=
+  if s == "." then some [] else
   (s.splitOn ",").mapM (fun e =>
     match e.splitOn ":" with
-    | [p, v] => (ofHex? p).map (fun pb => (pb, v == "1"))
+    | [p, d] => do let pb ← ofHex? p; let db ← ofHex? d; pure (pb, db)
     | _ => none)
 
 def newDomainB : String → Option DomainSet.DomainB
@@ -121,12 +122,17 @@ def step (st : St) (line : String) : St × String :=
     match st.b.domainSet (fun p => !st.reBad.contains p) with
     | some ms => ({ st with ms := some ms }, "ok " ++ ",".intercalate (ms.map matcherKind))
     | none => ({ st with ms := none }, "err")
-  | ["probe", dh, tab] =>
-    match ofHex? dh, parseReTab tab, st.ms with
-    | some d, some t, some ms =>
-      let re := fun (p d' : List UInt8) => d' == d && ((t.lookup p).getD false)
-      (st, if DomainSet.matchSet re ms d then "1" else "0")
-    | _, _, _ => (st, "bad-op")
+  | ["retrue", h] =>
+    match parseReTrue h with
+    | some l => ({ st with reTrue := l }, "ok")
+    | none => (st, "bad-op")
+  | ["probes", h] =>
+    match parseHexList h, st.ms with
+    | some ds, some ms =>
+      let re := fun (p d : List UInt8) => st.reTrue.contains (p, d)
+      (st, String.ofList (ds.map (fun d => if DomainSet.matchSet re ms d then '1' else '0')))
+    | some _, none => (st, "nobuild")
+    | _, _ => (st, "bad-op")
   | ["suffix1", dh, sh] =>
     match ofHex? dh, ofHex? sh with
     | some d, some s => (st, if DomainSet.matchDomainSuffix d s then "1" else "0")
